@@ -231,6 +231,33 @@ def _mirror_chunk(args):
             break
     return fails
 
+def keyword_head_cases():
+    """`&initial`, `&final`, `&true`, `&false` as rule heads (rewritten by visit_TheoryAtom to doubly negated `__initial(t)` /
+    `__final(t)` / `#true` / `#false`): the documented reading is the constraint with the negated keyword in the body"""
+    out = []
+    bodies = ["a", "a, 'b", "not b", "a, not &final", "b, not not 'a"]
+    for part in ("initial", "always", "dynamic", "final"):
+        for body in bodies:
+            if part == "initial" and "'" in body:
+                continue
+            for kw, reading in (("initial", ":- {B}, not &initial."), ("final", ":- {B}, not &final."), ("false", ":- {B}."), ("true", "")):
+                t1 = "#program always. {{a;b}}. #program {}. &{} :- {}.".format(part, kw, body)
+                t2 = "#program always. {{a;b}}. #program {}. {}".format(part, reading.format(B=body))
+                out.append((kw, t1, t2))
+    return out
+
+def _kwhead_chunk(args):
+    (cases,) = args
+    fails = []
+    for kw, t1, t2 in cases:
+        r1, r2 = oracles.impl_models(t1, 3, dedup=True), oracles.impl_models(t2, 3, dedup=True)
+        if "Timeout" in (r1[1], r2[1]):
+            continue
+        if r1 != r2:
+            fails.append({"kind": "keyword-head", "law": "&" + kw + " as a head", "text": t1 + "\n%%% versus the documented reading\n" + t2,
+                          "input": [t1, t2], "got": [str(r1)[:300], str(r2)[:300]]})
+    return fails
+
 def search(ctx, deep):
     H = 3
     pairs = gen_pairs(ctx.seed * 53 + 2, (10 if ctx.tier == "quick" else 60) * (3 if deep else 1), ctx.tier)
@@ -242,10 +269,13 @@ def search(ctx, deep):
     mforms = [gen.gen_sform(r, r.randint(1, 3), ATOMS) for _ in range(40 if ctx.tier == "quick" else 600)]
     for f in par.pmap(_mirror_chunk, [(ctx.seed, c, H) for c in par.chunks(mforms, ctx.jobs)], ctx.jobs):
         fails += f
+    kwc = keyword_head_cases()
+    for f in par.pmap(_kwhead_chunk, [(c,) for c in par.chunks(kwc, ctx.jobs)], ctx.jobs):
+        fails += f
     laws_hit = {}
     for p in pairs:
         laws_hit[p[0]] = laws_hit.get(p[0], 0) + 1
-    return {"law_instances": len(pairs), "per_law": laws_hit, "mirror_formulas": len(mforms), "horizons": "0..{}".format(H),
+    return {"law_instances": len(pairs), "per_law": laws_hit, "mirror_formulas": len(mforms), "keyword_head_programs": len(kwc), "horizons": "0..{}".format(H),
             "sample": {"law": pairs[0][0], "lhs": tl.render_tel(pairs[0][1]), "rhs": tl.render_tel(pairs[0][2])}}, fails
 
 def replay(obj):
